@@ -25,6 +25,19 @@ Check(rec) ==
          ELSE IF ~rec.rt THEN <<"C10", "not-round-trip">>
          ELSE IF ~rec.short THEN <<"C10", "not-shortest">>
          ELSE <<>>
+    ELSE IF rec.kind = "typed"
+    THEN \* a token built from a Go number; rec.lit is the exact decimal text of its value
+         LET nf == Normal(rec.lit)
+             want == IF rec.acc = "int" THEN ValueInt(nf) ELSE ValueUint(nf) IN
+         IF rec.acc \in {"int", "uint"}
+         THEN IF rec.toke # want.err THEN <<"C10", "typed-token-error", want.err>>
+              ELSE IF (TruncDecidable(nf) \/ want.err = "nil") /\ rec.gotmag # want.v.mag THEN <<"C10", "typed-token-value", want.v.mag>>
+              ELSE IF (TruncDecidable(nf) \/ want.err = "nil") /\ rec.gotneg # (want.v.neg /\ want.v.mag # <<0>>) THEN <<"C10", "typed-token-sign">>
+              ELSE <<>>
+         ELSE \* Float / Float32 accessor: a range error exactly when the value overflows the width
+              IF (rec.toke = "range") # rec.ovf \/ rec.toke \notin {"nil", "range"} THEN <<"C10", "typed-token-float-error", rec.ovf>>
+              ELSE IF ~rec.round THEN <<"C10", "typed-token-float-value">>
+              ELSE <<>>
     ELSE IF ~rec.round THEN <<"C10", "not-correctly-rounded">>
          ELSE IF rec.err # rec.ovf THEN <<"C10", "overflow-error", rec.ovf>>
          ELSE IF (rec.toke = "range") # rec.ovf \/ rec.toke \notin {"nil", "range"} THEN <<"C10", "token-float-error", rec.ovf>>
